@@ -32,7 +32,7 @@ def filters():
 def build(d, tag, fmt, n_models, n_ap, perm, sord='wav-desc', seed=0, n_cols=2, distinct=True, grids='same', dead=False, funit='mJy'):
     """Returns dict(md, names (physical order), table_order, flux (n_models, n_ap, n_wav on W_ASC), err, ap, pardict)."""
     rng = np.random.default_rng(seed * 23 + n_models * 5 + n_ap)
-    names = ['sp_%s' % 'qbxamczk'[i] for i in range(n_models)]
+    names = ['sp_%s' % 'qbxamczk'[i] for i in range(min(n_models, 8))] + [('sp_%05d' % ((i * 7919 + 13) % 100003)) if i % 7 else ('sp_long_name_filling_30chr_%03d' % i) for i in range(8, n_models)]
     perm = list(perm)
     table_order = [names[i] for i in perm]
     ap = None if n_ap == 1 else 200.0 * 5.0 ** np.arange(n_ap)
